@@ -261,7 +261,8 @@ def validate_obs(rules_rr, doc, shared=None, as_data=False):
             shared["rules"], shared["schema"] = rules, schema
     order = []
     for r in schema.rules:
-        order.append(next(j for j, x in enumerate(rules, 1) if x is r or x.condition is r.condition))
+        same = [j for j, x in enumerate(rules, 1) if x is r]
+        order.append(same[0] if same else next(j for j, x in enumerate(rules, 1) if x.condition is r.condition))
     arg = valida.Data(doc) if as_data else doc
     with watch(objs=[schema], docs=[doc]) as w:
         out, vd = outcome_of(lambda: schema.validate(arg))
